@@ -105,9 +105,17 @@ namespace {
       struct Probe : rb::container<AddrElem> { auto r() const { return root; } } c;
       using N = rb::node<AddrElem>;
       Shape<N, int (*)(const N&)> sh;
-      explicit OwnAddr(int n) : pool(n + 2) { for (int k = 0; k < n + 2; ++k) pool[k].rank = k; }
-      int insert(int k) override { return c.insert(&pool.at(k), AddrCmp{})->cell->rank; }
-      bool find(int k) override { return c.find(&pool.at(k), AddrCmp{}) != nullptr; }
+      // the rank of a cell is its place in the order the library's own comparator gives the cells (whichever total order on
+      // addresses that is: the property is about trees over the comparator's order, not about addresses going up)
+      std::vector<const Cell*> by_rank;
+      explicit OwnAddr(int n) : pool(n + 2)
+      {
+         for (auto& c : pool) by_rank.push_back(&c);
+         std::sort(by_rank.begin(), by_rank.end(), [](const Cell* a, const Cell* b) { return ipr::impl::compare(a, b) < 0; });
+         for (std::size_t r = 0; r < by_rank.size(); ++r) const_cast<Cell*>(by_rank[r])->rank = static_cast<int>(r);
+      }
+      int insert(int k) override { return c.insert(by_rank.at(k), AddrCmp{})->cell->rank; }
+      bool find(int k) override { return c.find(by_rank.at(k), AddrCmp{}) != nullptr; }
       long size() override { return c.size(); }
       Value shape() override { return sh.dump(c.r(), +[](const N& n) { return n.data.cell->rank; }); }
       bool owning() const override { return true; }
